@@ -97,10 +97,18 @@ def pattern(value, positional, star, kwargs, method_name, proxy, refcount, other
     return "?" + type(value).__name__
 
 
+def own_params(fn):
+    """the parameters of a netref method after the proxy itself: a leading named parameter is the proxy; a made method
+    declared `(*args, **kwargs)` takes the proxy out of *args, so all of its parameters are its own"""
+    ps = list(inspect.signature(fn).parameters.values())
+    if ps and ps[0].kind in (ps[0].POSITIONAL_ONLY, ps[0].POSITIONAL_OR_KEYWORD):
+        ps = ps[1:]
+    return ps
+
+
 def sig_shape(fn):
-    ps = list(inspect.signature(fn).parameters.values())[1:]
     out, n = [], 0
-    for p in ps:
+    for p in own_params(fn):
         if p.kind in (p.POSITIONAL_ONLY, p.POSITIONAL_OR_KEYWORD):
             n += 1
             out.append("$%d" % n)
@@ -166,7 +174,7 @@ def observe_made_method(netref, consts, name):
     fn = netref._make_method(name, "doc")
     rec = Recorder()
     proxy = netref.BaseNetref(rec, ("observed.Class", 1001, 5005))
-    ps = list(inspect.signature(fn).parameters.values())[1:]
+    ps = own_params(fn)
     positional = [Sentinel("$%d" % k) for k, p in enumerate(ps, 1) if p.kind in (p.POSITIONAL_ONLY, p.POSITIONAL_OR_KEYWORD)]
     has_star = any(p.kind == p.VAR_POSITIONAL for p in ps)
     has_kw = any(p.kind == p.VAR_KEYWORD for p in ps)
@@ -188,6 +196,37 @@ def observe_made_method(netref, consts, name):
     raw = list(args[1:])
     pats = [pattern(a, positional, star, kwargs, name, proxy, None, {}) for a in raw]
     return sig_shape(fn), kind, target, names[handler], pats, raw
+
+
+KEYWORD_CANDIDATES = ["self", "_self", "args", "kwargs", "name", "cls", "proxy", "handler", "doc", "obj", "key", "x"]
+
+
+def observe_reserved_keywords(netref, consts):
+    """keyword names a made method that forwards **kwargs refuses for itself (it raises before asking the connection
+    for anything): the target might accept that very keyword, so every such name is a call the proxy cannot forward"""
+    reserved = []
+    for made in ("__call__", "observed_method_name"):
+        fn = netref._make_method(made, "doc")
+        if not any(p.kind == p.VAR_KEYWORD for p in own_params(fn)):
+            continue
+        for kw in KEYWORD_CANDIDATES:
+            rec = Recorder()
+            proxy = netref.BaseNetref(rec, ("observed.Class", 1001, 6006))
+            rec.calls[:] = []
+            try:
+                fn(proxy, **{kw: Sentinel("kw")})
+                refused = False
+            except TypeError:
+                refused = not rec.calls
+            except Exception:  # noqa
+                refused = False
+            sent = [c for c in rec.calls]
+            object.__setattr__(proxy, "____conn__", Recorder())
+            carried = any(type(a) is tuple and any(type(item) is tuple and len(item) == 2 and item[0] == kw for item in a)
+                          for c in sent for a in c[2][1:])
+            if refused or not carried:
+                reserved.append("%s(%s=...)" % ("proxy" if made == "__call__" else "proxy.method", kw))
+    return reserved
 
 
 def observe_buffiter(helpers, consts):
@@ -321,6 +360,10 @@ def gen_netref():
           "def makeMethodShapes : List (String × String × String × String × String × List String) := " + lean_list(shapes, 1),
           "def slicers : List (String × String) := " + lean_list(
               ["(%s, %s)" % (lean_str(k), lean_str(v)) for k, v in sorted(slicer_rows)], 3), ""]
+
+    L += ["/-- keyword names (of a fixed candidate list) that a made `__call__` / method refuses or does not forward although it",
+          "takes **kwargs: a target accepting that keyword cannot be called with it through a proxy.  Must be empty. -/",
+          "def reservedKeywords : List String := " + lean_strs(observe_reserved_keywords(netref, consts)), ""]
 
     # -- helpers.buffiter (observed)
     kind, target, h, pats = observe_buffiter(helpers, consts)
